@@ -29,7 +29,7 @@ use sozu_command_lib::{
     config::ListenerBuilder,
     proto::command::{
         ActivateListener, AddBackend, AddCertificate, CertificateAndKey, Cluster, HardStop, ListenerType, LoadBalancingParams, RemoveBackend, Request, RequestTcpFrontend,
-        ResponseStatus, ReturnListenSockets, SoftStop, Status, WorkerRequest, WorkerResponse, request::RequestType,
+        ResponseStatus, ReturnListenSockets, SoftStop, Status, TlsVersion, WorkerRequest, WorkerResponse, request::RequestType,
     },
     scm_socket::Listeners,
     state::ConfigState,
@@ -86,6 +86,13 @@ struct Plan {
     kinds: Vec<Kind>,
     /// listeners configured with a `public_address` different from the address they are bound to
     public: Vec<bool>,
+    /// pre-history: listener additions the worker must reject (0 = HTTPS listener offering TLS 1.1
+    /// only, 1 = HTTPS listener with an unparsable answer template, 2 = HTTP listener with one);
+    /// TCP and UDP listener additions cannot be rejected short of a full session table
+    rejected: Vec<u8>,
+    /// exactly one exchange (H1, parked before the response head) is open on the old worker when it
+    /// is told to stop: no other parked exchange, the fleet starts once the listeners were handed back
+    lone: bool,
     inflight: Vec<InflightPlan>,
     fleet_threads: usize,
     fleet_slow_pct: u64,
@@ -112,6 +119,12 @@ impl Plan {
             "successor_initial_state": if self.main_like_state { "as the main process builds it: listeners active" } else { "as e2e Worker::upgrade builds it: listeners inactive" },
             "old_worker_dies_by": if !self.scenario.is_crash() { Value::Null } else if self.crash_drop_channel { json!("command channel dropped") } else { json!("HardStop") },
             "listeners": self.kinds.iter().enumerate().map(|(i, k)| format!("{}@:{}{}", k.name(), 8000 + i, if self.public[i] { " public_address=203.0.113.x" } else { "" })).collect::<Vec<_>>(),
+            "rejected_listener_additions_before_the_traffic": self.rejected.iter().map(|k| match k {
+                0 => "AddHttpsListener offering TLS 1.1 only",
+                1 => "AddHttpsListener with an unparsable 404 answer template",
+                _ => "AddHttpListener with an unparsable 404 answer template",
+            }).collect::<Vec<_>>(),
+            "lone_exchange": self.lone,
             "in_flight": self.inflight.iter().map(|p| p.json()).collect::<Vec<_>>(),
             "fleet_threads": self.fleet_threads, "fleet_percent_slow_first_byte": self.fleet_slow_pct, "burst_connections_while_nobody_accepts": self.burst,
             "pause_before_hand_over_ms": self.pre_ms, "soft_stop_before_successor_start": self.softstop_first, "gap_ms": self.gap_ms,
@@ -135,7 +148,7 @@ impl Plan {
             _ => 200,
         };
         format!(
-            "{}{}/{}/{:?}/pub{:?}/{:?}/{}/{:?}/b{}",
+            "{}{}/{}/{:?}/pub{:?}/{:?}/{}/{:?}/b{}/rej{}/lone{}",
             self.scenario.name(),
             if self.main_like_state { "+main" } else { "" },
             self.crash_drop_channel,
@@ -144,7 +157,9 @@ impl Plan {
             phases,
             self.softstop_first,
             self.release_at,
-            (self.burst > 0) as u8
+            (self.burst > 0) as u8,
+            self.rejected.len(),
+            self.lone as u8
         )
     }
 }
@@ -209,6 +224,15 @@ fn make_plan(ctx: &Ctx, case: u64) -> Plan {
     }
     let a = rng.range(0, 3) as u8;
     let b = rng.range(a as u64, 3) as u8;
+    let rejected: Vec<u8> = (0..rng.urange(0, 3)).map(|_| rng.below(3) as u8).collect();
+    let home = kinds.iter().position(|k| *k == Kind::Http).or_else(|| kinds.iter().position(|k| *k == Kind::Https));
+    let lone = matches!(scenario, Scenario::Handover | Scenario::SoftStop) && rng.chance(1, 3) && home.is_some();
+    let (mut a, mut b) = (a, b);
+    if let (true, Some(home)) = (lone, home) {
+        // the single exchange stays parked for a few drain ticks after the stop
+        inflight = vec![InflightPlan { phase: Phase::BeforeHeaders, listener: home, gate: 1, resp_len: *rng.pick(&[2usize, 1000, 16393]), up_len: 0, streams: 0 }];
+        (a, b) = (3, 3);
+    }
     Plan {
         case,
         seed: ctx.seed,
@@ -218,8 +242,10 @@ fn make_plan(ctx: &Ctx, case: u64) -> Plan {
         crash_drop_channel: rng.bool() && scenario != Scenario::CrashBeforeReturn,
         kinds,
         public,
+        rejected,
+        lone,
         inflight,
-        fleet_threads: ctx.tier.pick(2, 3),
+        fleet_threads: if lone && scenario == Scenario::SoftStop { 0 } else { ctx.tier.pick(2, 3) },
         fleet_slow_pct: *rng.pick(&[0u64, 20, 60]),
         burst: if rng.chance(1, 2) { rng.urange(4, 40) } else { 0 },
         pre_ms: rng.below(30),
@@ -341,6 +367,46 @@ fn configure(w: &mut Worker, state: &mut ConfigState, cell: &Cell) -> Result<(),
                 backup: None,
             }),
         )?;
+    }
+    Ok(())
+}
+
+/// pre-history: listener additions the worker answers with a failure; they must leave no trace in
+/// what a later soft stop waits for
+fn rejected_additions(w: &mut Worker, state: &mut ConfigState, cell: &Cell, plan: &Plan, rep: &mut Report) -> Result<(), String> {
+    let ip = match cell.listeners[0].1 {
+        SocketAddr::V4(a) => *a.ip(),
+        _ => return Ok(()),
+    };
+    for (j, kind) in plan.rejected.iter().enumerate() {
+        let addr = lab::sa(ip, 8900 + j as u16);
+        let bad_template = ("404".to_owned(), "this is not an HTTP response".to_owned());
+        let rt = match kind {
+            0 | 1 => {
+                let mut c = ListenerBuilder::new_https(addr.into()).to_tls(None).map_err(|e| e.to_string())?;
+                if *kind == 0 {
+                    c.versions = vec![TlsVersion::TlsV11 as i32];
+                } else {
+                    c.answers.insert(bad_template.0, bad_template.1);
+                }
+                RequestType::AddHttpsListener(c)
+            }
+            _ => {
+                let mut c = ListenerBuilder::new_http(addr.into()).to_http(None).map_err(|e| e.to_string())?;
+                c.answers.insert(bad_template.0, bad_template.1);
+                RequestType::AddHttpListener(c)
+            }
+        };
+        let req: Request = rt.clone().into();
+        match w.call(rt, Duration::from_secs(20)) {
+            Ok(r) if r.status == ResponseStatus::Failure as i32 => rep.obs("B.rejected_listener_additions", 1),
+            Ok(_) => {
+                // the worker took it: an inactive listener on an unused address, kept in the successor's state too
+                let _ = state.dispatch(&req);
+                rep.obs("B.listener_additions_meant_to_be_rejected_but_accepted", 1);
+            }
+            Err(e) => return Err(format!("no answer to a listener addition meant to be rejected: {e:?}")),
+        }
     }
     Ok(())
 }
@@ -623,6 +689,7 @@ fn drive(
 ) -> Result<(), String> {
     let sh = run.sh.clone();
     configure(old, state, cell).map_err(|e| format!("the old worker refused the cell configuration: {e}"))?;
+    rejected_additions(old, state, cell, plan, rep)?;
     let mut prng = Rng::for_case(plan.seed, STREAM_FLEET + 99, plan.case);
 
     // warm-up: every listener answers through the old worker
@@ -656,12 +723,31 @@ fn drive(
     }
     sh.step("in_flight_parked");
 
-    // fleet
-    for t in 0..plan.fleet_threads {
-        let (sh2, l2) = (sh.clone(), cell.listeners.clone());
-        let rng = Rng::for_case(plan.seed, STREAM_FLEET + t as u64, plan.case);
-        let slow = plan.fleet_slow_pct;
-        traffic.fleet.push(std::thread::Builder::new().name(format!("c10-fleet-{}", plan.case)).spawn(move || fleet_thread(sh2, rng, l2, slow, 4000)).map_err(|e| e.to_string())?);
+    // fleet (with a lone exchange it starts once the old worker accepts no more)
+    let start_fleet = |traffic: &mut Traffic| -> Result<(), String> {
+        for t in 0..plan.fleet_threads {
+            let (sh2, l2) = (sh.clone(), cell.listeners.clone());
+            let rng = Rng::for_case(plan.seed, STREAM_FLEET + t as u64, plan.case);
+            let slow = plan.fleet_slow_pct;
+            traffic.fleet.push(std::thread::Builder::new().name(format!("c10-fleet-{}", plan.case)).spawn(move || fleet_thread(sh2, rng, l2, slow, 4000)).map_err(|e| e.to_string())?);
+        }
+        Ok(())
+    };
+    if !plan.lone {
+        start_fleet(&mut traffic)?;
+    } else {
+        // nothing but the parked exchange is open on the old worker: the warm-up connections are gone
+        let start = Instant::now();
+        while old.probe.snapshot().nb_connections != 1 && start.elapsed() < Duration::from_secs(3) {
+            std::thread::sleep(Duration::from_millis(2));
+        }
+        let snap = old.probe.snapshot();
+        let parked = traffic.inflight.first().is_some_and(|(_, f)| f.0.load(Ordering::SeqCst));
+        if parked && snap.nb_connections == 1 {
+            rep.obs("B.softstops_with_single_parked_exchange", 1);
+            rep.obs_max("B.slab_entries_above_base_with_single_parked_exchange", snap.slab_len.saturating_sub(snap.base_sessions_count) as u64);
+            sh.step("single_exchange_open_on_the_old_worker");
+        }
     }
     if plan.burst > 0 && plan.scenario != Scenario::SoftStop && plan.scenario != Scenario::CrashBeforeReturn {
         let (sh2, l2, n) = (sh.clone(), cell.listeners.clone(), plan.burst);
@@ -743,6 +829,9 @@ fn drive(
                 }
             };
             sh.step("fds_received");
+            if plan.lone {
+                start_fleet(&mut traffic)?;
+            }
             check_manifest(run, rep, cell, &got);
             sh.burst_go.store(true, Ordering::SeqCst);
             release(0);
@@ -1331,6 +1420,8 @@ pub fn run_inproc(ctx: &Ctx, rep: &mut Report) {
         "B.probes_served_by_successor",
         "B.manifest_pairs_checked",
         "B.inflight_completed/before_headers",
+        "B.rejected_listener_additions",
+        "B.softstops_with_single_parked_exchange",
         "B.interim_response_relayed_during_drain/expect_100_continue",
         "B.interim_response_relayed_during_drain/early_hints_103",
     ] {
